@@ -12,7 +12,8 @@ VERIF = os.path.dirname(os.path.dirname(os.path.abspath(__file__)))
 
 
 def main():
-    only = sys.argv[1:]
+    only = [a for a in sys.argv[1:] if not a.startswith("--")]
+    primary_only = "--primary-only" in sys.argv
     rows = []
     for mp in sorted(glob.glob(os.path.join(VERIF, "seeded", "*", "meta.json"))):
         d = os.path.dirname(mp)
@@ -23,18 +24,22 @@ def main():
         props = list(meta.get("checks", {}).keys()) or [meta["breaks_property"]]
         if meta["breaks_property"] not in props:
             props.insert(0, meta["breaks_property"])
+        if primary_only:
+            props = [meta["breaks_property"]]
         r = subprocess.run(["python3", os.path.join(VERIF, "tools", "try_mutation.py"),
                             os.path.join(d, "patch.diff"), "--no-tests"] + props, capture_output=True, text=True)
         last = [l for l in r.stdout.split("\n") if l.startswith("{")]
         res = json.loads(last[-1]) if last else {"results": {}}
         if "first_run" not in meta:
             meta["first_run"] = meta.get("checks", {})
-        meta["current"] = {p: {k: v for k, v in res["results"].get(p, {}).items()
-                               if k in ("status", "no_failing_input", "detail")} for p in props}
+        cur = dict(meta.get("current", {})) if primary_only else {}
+        cur.update({p: {k: v for k, v in res["results"].get(p, {}).items()
+                        if k in ("status", "no_failing_input", "detail")} for p in props})
+        meta["current"] = cur
         meta["checks"] = meta["current"]
         json.dump(meta, open(mp, "w"), indent=1)
         line = "%-52s %s" % (name, "  ".join("%s:%s%s" % (p, v.get("status", "?"), "(nfi)" if v.get("no_failing_input") else "")
-                                            for p, v in meta["current"].items()))
+                                            for p, v in meta["current"].items() if p in props))
         print(line, flush=True)
         rows.append(line)
     return 0
